@@ -12,7 +12,7 @@ FUNCTIONS = ["gcmpy.covers.eecc.EECC.get_EECC", "EECC.limited_maximal_cliques", 
              "networkx.find_cliques (real implementation)"]
 STUBS = ["random.choice -> fresh bounded index; the chosen clique is looked up by index, so every distinct tie-break is a separate path"]
 BOUNDS = {
-    "quick": "every labelled graph without isolated vertices on 2..5 vertices x m0 in 2..6 x every tie-break sequence; every labelled 6-vertex graph at m0=2, and on 6 "
+    "quick": "every labelled graph without isolated vertices on 2..5 vertices x m0 in 2..6 x every tie-break sequence; every labelled 6-vertex graph at m0=2, histories on one object (cliques enumerated under another bound first) for n<=5, and on 6 "
              "vertices the templates 'two overlapping K4' and 'K5 plus a pendant triangle' with <= 7 free pairs at m0 in {2,3,4}",
     "thorough": "additionally every labelled graph on 6 vertices with m0 in {3,4} and the 7-vertex template 'two K4 sharing an edge' with 8 free pairs",
 }
@@ -31,6 +31,10 @@ def configs(tier):
             if m0 > n + 1:
                 continue
             cfgs.append({"name": f"all-n{n}-m0_{m0}", "n": n, "m0": m0, "fixed": [], "free": "all"})
+    # histories on one object: maximal cliques enumerated under another bound before the cover is computed
+    for n in (4, 5):
+        for m0 in (2, 3):
+            cfgs.append({"name": f"history-n{n}-m0_{m0}", "n": n, "m0": m0, "fixed": [], "free": "all", "history": True})
     k4a = [(0, 1), (0, 2), (0, 3), (1, 2), (1, 3), (2, 3)]
     k4b = [(2, 3), (2, 4), (2, 5), (3, 4), (3, 5), (4, 5)]
     k5 = [(a, b) for a in range(5) for b in range(a + 1, 5)]
@@ -72,6 +76,12 @@ def path(ctx, cfg):
     desc = f"edges={edges} m0={m0}"
     ec = EECC()
     ec.add_edges_from(list(edges))
+    if cfg.get("history"):
+        m1 = ctx.fork_int(ctx.int("first_bound", 2, 5))
+        ctx.assume(m1 != m0)
+        ec.set_max_clique_size(m1)
+        ctx.guard("eecc-raised", ec.limited_maximal_cliques)
+        desc += f" (after limited_maximal_cliques() under bound {m1} on the same object)"
     ec.set_max_clique_size(m0)
     cover = ctx.guard("eecc-raised", ec.get_EECC)
     cover = [[ctx.fork_int(v) for v in c] for c in cover]
